@@ -216,7 +216,7 @@ package server
 
 //@ func (*LockManager).UpdateLockedLock
 //@   requires self != nil && lock != nil && command != nil && self.lockDb != nil
-//@   ensures C03.update.command: lock.command == command && result == old(lock.command)
+//@   ensures C03.update.command,C19.update.command: lock.command == command && result == old(lock.command)
 //@   ensures C06.update.restart: implies(command.ExpriedFlag&0x4000 == 0 || command.Expried < 0xffff, lock.startTime == self.lockDb.currentTime && lock.expriedTime == i64(expriedDeadline(self.lockDb.currentTime, command)) && lock.timeoutTime == i64(timeoutDeadline(self.lockDb.currentTime, command)))
 //@   ensures C06.update.keep: implies(command.ExpriedFlag&0x4000 != 0 && command.Expried == 0xffff, lock.startTime == old(lock.startTime) && lock.expriedTime == old(lock.expriedTime))
 //@   ensures otherLocksSame(lock)
@@ -428,6 +428,7 @@ package server
 //@   modifies LockManager.refCount, LockManagerWaitQueue.*, LockManagerRingQueue.*, LockManagerPriorityRingQueue.*, LockManagerPriorityRingQueueNode.*, LockQueue.*, Lock.aofTime, Lock.command, Lock.data, Lock.isAof, Lock.manager, Lock.protocol, Lock.refCount, E_LJPserver_Lock, E_Pserver_Lock, E_Pserver_LockManagerPriorityRingQueueNode, E_int32
 
 //@ func (*LockDB).Lock
+//@   at call FreeLockCommand assert C19.relock.frees-replaced: implies(calls(UpdateLockedLock) == 1, arg1 == atsection(currentLock.command) && currentLock.command == command)
 //@   at call PriorityMutex.Unlock assert C15.value.frame: implies(calls(ProcessLockData) == 0 && calls(ProcessAckLockData) == 0 && calls(ProcessRecoverLockData) == 0 && calls(RemoveLockManager) == 0 && calls(wakeUpWaitLocks) == 0 && calls(DoAckLock) == 0 && calls(doExpried) == 0 && calls(doTimeOut) == 0 && calls(cancelWaitLock) == 0, lockManager.currentData == atsection(lockManager.currentData))
 //@   at call ProcessLockResultCommand assert C15.reply.before: implies(calls(ProcessLockData) >= 1, arg5 == ghost.valueBefore[ref(lockManager)])
 //@   requires self != nil && command != nil && !isnil(serverProtocol)
@@ -1127,3 +1128,13 @@ package server
 //@   at call removeServerProtocol after assume self.willCommands == before(self.willCommands) && self.glock == before(self.glock)
 //@   ensures C18.close.once: implies(old(self.closed), calls(ProcessCommad) == 0 && calls(Pop) == 0)
 //@   modifies all
+
+// =====================================================================================================
+// C19: what the server's admission rule (admissible, C01) yields for the Count values the client
+// primitives send (client/zz_verif_contracts.go). h is the key's hold total when the request is admitted,
+// c the request's Count, o the oldest holder's Count: admitted means h == 0 || (h <= c && h <= o).
+// =====================================================================================================
+//@ lemma mutexExclusive C19.lemma.lock: [h uint32, o uint16] implies(h == 0 || (h <= 0 && h <= o), h == 0)
+//@ lemma semaphoreBound C19.lemma.semaphore: [h uint32, n uint16, o uint16] implies(n >= 1 && (h == 0 || (h <= n - 1 && h <= o)), h + 1 <= n)
+//@ lemma writerExcludesReaders C19.lemma.rwlock-writer: [h uint32, o uint16] implies(h >= 1 && o == 0, !(h == 0 || (h <= 0xffff && h <= o)))
+//@ lemma readersExcludeWriter C19.lemma.rwlock-reader: [h uint32, o uint16] implies(h >= 1, !(h == 0 || (h <= 0 && h <= o)))
